@@ -17,6 +17,15 @@ def run(ctx):
     ctx.require(n >= 2, 'M6 evaluated only %d column stores (floor 2: forward and inverse)' % n)
     ctx.floor('M6', 5, 'closure obligations')
     ctx.floor('M8', 4, 'gap obligations')
+    need = ['PhaseShift.compute:centre-opposite-gap-midpoint',
+            'PhaseShift.compute:argmax-and-max-of-same-vector',
+            'PhaseShift.compute:coordinates-sorted',
+            'PhaseShift.compute:wrap-gap(distinct-coordinates)',
+            'PhaseShift.compute:wrap-gap(coincident-coordinates)']
+    have = {o.construct for o in ctx.obligations if o.rule == 'M8'}
+    if [c for c in need if c not in have]:
+        ctx.floor_failures.append('rule M8 could not decide %s' % [c for c in need
+                                                                   if c not in have])
     ctx.assumptions += ['float a % 1 lies in [0,1) for a >= 0 and in [0,1] when a may be '
                         'negative (CPython/NumPy: -1e-18 % 1 == 1.0)',
                         'centers restored from a checkpoint satisfy the invariant of the writer']
